@@ -90,11 +90,46 @@ def eval_reformat(case):
     return Outcome(nt, sorted(info), f)
 
 
+def eval_interleaved(case):
+    """two different tables whose results are consumed line by line, side by side (zip): each must come out exactly as
+    it does when printed alone"""
+    import itertools
+    import ak.ppobj as P
+    import ak.color as C
+    f = []
+    info = set(["interleaved"])
+    try:
+        ta, tb = tables.build(P, case["a"]), tables.build(P, case["b"])
+        la, lb = [], []
+        for x, y in itertools.zip_longest(ta.ch_text(no_color=True), tb.ch_text(no_color=True)):
+            if x is not None:
+                la.append(tables.line_text(C, x).plain_text())
+            if y is not None:
+                lb.append(tables.line_text(C, y).plain_text())
+    except Exception as e:   # noqa
+        import traceback
+        tb_ = traceback.extract_tb(e.__traceback__)[-1]
+        return Outcome(True, sorted(info), [("interleaved_tables_raise_%s_at_%s" % (type(e).__name__, tb_.name), f"{e}")])
+    for which, c, lines in (("first", case["a"], la), ("second", case["b"], lb)):
+        ff, inf = tables.check_text(c, "\n".join(lines))
+        f.extend((b + "_when_interleaved", f"{which} table: {d}") for b, d in ff)
+        info |= inf
+    nt = "break_lines" in info or "limits_applied" in info
+    return Outcome(nt, sorted(info), f)
+
+
+def st_two_tables():
+    from hypothesis import strategies as st
+    return st.fixed_dictionaries({"a": tables.st_table_case(max_records=15), "b": tables.st_table_case(max_records=15)})
+
+
 def parts(tier):
     k = 1 if tier == "quick" else 40
     return [Part("tables", evaluate, strategy=tables.st_table_case, examples=6000 * k),
             Part("reformatted", eval_reformat, strategy=tables.st_reformat_case, examples=3000 * k,
-                 note="print, then fmt setter / remove_columns (with prints in between), judged against the final format")]
+                 note="print, then fmt setter / remove_columns (with prints in between), judged against the final format"),
+            Part("interleaved", eval_interleaved, strategy=st_two_tables, examples=2000 * k,
+                 note="two tables consumed line by line side by side")]
 
 
 TECHNIQUE = "property-based testing (Hypothesis): generated tables judged by an independent parser of the no-colour text (border-derived column offsets, per-cell padded/truncated value check, line-sequence model for limits and break lines)"
